@@ -245,4 +245,20 @@ theorem allowedB_spec {H : Hier} (hd : NoDangling H) {m : Mod} {caller : Option 
       rw [relatedB_spec hd h]
       simp [allowed]
 
+/-- the store after one access: its effect when the verdict is `allowed`, unchanged otherwise -/
+theorem exec_store (T : Table) (H : Hier) (s : Site) (σ : Store) (op : Op) :
+    (exec T H s σ op).2 = if verdict T H ⟨s, op⟩ = .allowed then σ.after op else σ := by
+  cases op with
+  | read k =>
+    unfold exec verdict
+    cases hd : decide T H s <;> simp [Store.after]
+  | write k v ok =>
+    unfold exec verdict
+    cases ok with
+    | false => simp
+    | true => cases hd : decide T H s <;> simp [Store.after]
+  | call k =>
+    unfold exec verdict
+    cases hd : decide T H s <;> simp [Store.after]
+
 end Proofs.Access
